@@ -144,7 +144,7 @@ type Samp struct {
 
 type Resp struct {
 	Code    int      `json:"code"`
-	Msg     string   `json:"-"`
+	Msg     string   `json:"msg"`
 	Panic   bool     `json:"panic"`
 	Fams    []FamDef `json:"fams"`
 	Names   []j.B    `json:"names"`
@@ -198,6 +198,7 @@ type Op struct {
 	HasFilter bool       `json:"hasFilter"`
 	Filter    *Filter    `json:"filter"`
 	FamOrders []FamOrder `json:"famOrders"`
+	Idle      bool       `json:"idle"`
 	WantChunks bool      `json:"-"`
 
 	Resp *Resp `json:"resp,omitempty"`
@@ -220,6 +221,7 @@ var opFields = map[string][]string{
 	"ReadRows":        {"t", "rs", "limit", "hasFilter", "filter", "famOrders"},
 	"SampleRowKeys":   {"t"},
 	"GcPass":          {"t", "now"},
+	"GcAuto":          {"t", "now", "idle"},
 }
 
 var mutFields = map[string][]string{
